@@ -2,6 +2,7 @@
 From Coq Require Import QArith Qcanon ZArith List Bool Sorted.
 Require Import CGT.Model.Num CGT.Model.Ledger CGT.Model.Match CGT.Model.Agg CGT.Model.Report
                CGT.Proofs.MatchFacts CGT.Proofs.MatchInv CGT.Proofs.ReportFacts CGT.Proofs.RoundFacts CGT.Proofs.Examples.
+Require Import CGT.Model.Validate CGT.Proofs.ReportAdd CGT.Proofs.ValidWf.
 Import ListNotations.
 Open Scope Qc_scope.
 
@@ -22,6 +23,19 @@ Theorem C04_disposal_arithmetic : forall w ds s, wf_days ds -> sorted_days ds ->
      qsum (map lg_gain (snd x)) = sgross d - sfees d - qsum (map lg_cost (snd x)))
     (m_disp s) (filter hassell ds).
 Proof. exact run_disposals_arith. Qed.
+
+(* ... for every validated ledger and each of its securities *)
+Theorem C04_validated_ledgers : forall P l s st, has_errors (map t_op l) = false -> sr_res (eval_tick P l s) = inr st ->
+  Forall2 (fun (x : Z * list leg) (d : day) =>
+     fst x = dt d /\ qsum (map lg_qty (snd x)) = sq d /\ qsum (map lg_gross (snd x)) = sgross d /\
+     qsum (map lg_net (snd x)) = sgross d - sfees d /\
+     qsum (map lg_gain (snd x)) = sgross d - sfees d - qsum (map lg_cost (snd x)))
+    (m_disp st) (filter hassell (days_of_tick l s)).
+Proof.
+  intros P l s st Hv Hr. destruct (validated_days l s Hv) as [W S]. unfold eval_tick in Hr. cbn [sr_res] in Hr.
+  exact (run_disposals_arith _ _ _ W S Hr).
+Qed.
+Print Assumptions C04_validated_ledgers.
 
 (* the 10-place rounding of a disposal's gross and net figure moves it by at most 5e-11 *)
 Theorem C04_rounding_bound : forall n x,
